@@ -28,7 +28,7 @@ var textPool = []string{"A", " b ", "\n", "\n  ", "<p>", "</p> <b>", "ü€", "x
 
 var allConstructs = []string{"text", "var", "y", "vsim", "if", "ifequal", "ifnotequal", "for", "with", "set", "macro", "import",
 	"include", "lazyinclude", "cycle", "ifchanged", "filtertag", "spaceless", "autoescape", "firstof", "widthratio",
-	"templatetag", "lorem", "now", "comment", "verbatim", "ssi", "ssiplain", "failexpr", "poly", "lazyvar", "big", "recmacro"}
+	"templatetag", "lorem", "now", "comment", "verbatim", "ssi", "ssiplain", "failexpr", "poly", "lazyvar", "big", "recmacro", "listlit"}
 
 // filters with the argument forms the generator writes for them
 var filterForms = map[string][]string{
@@ -211,6 +211,21 @@ func (p *progGen) node(b *strings.Builder, depth int) {
 			b.WriteString("{% vsim %}")
 		} else {
 			fmt.Fprintf(b, "{{ %s|vsim }}", p.strE())
+		}
+	case "listlit":
+		// literal lists: iterated plain, sorted and reversed, also through a variable
+		p.use("for")
+		lit := p.pick([]string{"[10, 9, 100, 1]", `["b", "a", "c"]`, "[n1, 2, n2]", `[s1, "m", s2]`, "[3]"})
+		v := p.id("it")
+		switch p.g.Draw(3) {
+		case 0:
+			fmt.Fprintf(b, "{%% for %s in %s%s %%}{{ %s }},{%% endfor %%}", v, lit, p.pick([]string{"", " sorted", " reversed", " reversed sorted"}), v)
+		case 1:
+			lv := p.id("ll")
+			p.use("set")
+			fmt.Fprintf(b, "{%% set %s = %s %%}{%% if b1 %%}{%% for %s in %s sorted %%}{{ %s }};{%% endfor %%}{%% endif %%}{%% for %s in %s %%}{{ %s }},{%% endfor %%}", lv, lit, v, lv, v, v, lv, v)
+		default:
+			fmt.Fprintf(b, "{{ %s|join:\"-\" }}{{ %s|length }}{{ %s|first }}", lit, lit, lit)
 		}
 	case "poly":
 		// the same path resolves through a method, a map key or a struct field depending on the context
@@ -524,13 +539,27 @@ func GenProgram(g *Tape, size int) *ProgSpec {
 		sp.Files["base.tpl"] = bb.String()
 		sp.Blocks = []string{"b1", "b2"}
 		p.budget = size
-		mb.WriteString(`{% extends "base.tpl" %}`)
-		mb.WriteString("{% block b1 %}")
-		if g.Draw(2) == 0 {
-			mb.WriteString("{{ block.Super }}")
+		parent := "base.tpl"
+		threeLevel := g.Draw(2) == 1
+		if threeLevel {
+			// main -> mid -> base; mid overrides b1 (with block.Super), main only inherits it
+			var md strings.Builder
+			md.WriteString(`{% extends "base.tpl" %}{% block b1 %}[mid {{ block.Super }}`)
+			p.budget += 3
+			p.body(&md, 1)
+			md.WriteString("]{% endblock %}")
+			sp.Files["mid.tpl"] = md.String()
+			parent = "mid.tpl"
 		}
-		p.body(&mb, 1)
-		mb.WriteString("{% endblock %}")
+		fmt.Fprintf(&mb, `{%% extends "%s" %%}`, parent)
+		if !threeLevel || g.Draw(3) == 0 {
+			mb.WriteString("{% block b1 %}")
+			if g.Draw(2) == 0 {
+				mb.WriteString("{{ block.Super }}")
+			}
+			p.body(&mb, 1)
+			mb.WriteString("{% endblock %}")
+		}
 		if g.Draw(2) == 0 {
 			mb.WriteString("{% block b2 %}child-b2:")
 			p.body(&mb, 1)
